@@ -4,8 +4,7 @@ package main
 // The Lean model (lean/Stef/Driver/Otlp.lean) must print the same text for the same op line.
 //
 // Inputs outside the model's stated scope get no op lines (they are still evaluated by the oracle):
-//   * the classes whose failures come from below the converters (codec defects: RestartDictionaries,
-//     arrays inside maps after a relocation),
+//   * the class whose failures come from below the converters (codec defect: RestartDictionaries),
 //   * sorted conversions whose leaves could exceed 12 points (slices.SortFunc is only stable below that),
 //   * very large lines.
 
@@ -29,7 +28,7 @@ func metricsOpsAllowed(class int) (unsortedOK, sortedOK bool) {
 		return true, true
 	}
 	switch mclasses[class].name {
-	case "restart-dicts", "array-in-map":
+	case "restart-dicts":
 		return false, false
 	}
 	return true, true
@@ -96,10 +95,6 @@ func emitTracesOps(t Traces, class int) {
 		return
 	}
 	for _, m := range tmodes {
-		if class >= 0 && tclasses[class].name == "array-in-map" {
-			stats["t-ops-skipped-class"]++
-			continue
-		}
 		if m.sorted && class >= 0 && tclasses[class].name == "cmpval-kinds" {
 			// whether CmpVal panics depends on which pairs sort.SliceStable happens to compare
 			stats["t-ops-skipped-class"]++
